@@ -73,6 +73,33 @@ CLAIMED.update({
          "DESIGN.md §4 C17"),
 })
 
+CLAIMED.update({
+ "C07": ("reference-model oracle: independent reference router evaluated on the run's context vs the exit / stored result the engine produced",
+         "Runtime monitoring: dedicated scenarios (wait -> router under test -> one sink per exit, also entered from a parent flow) over all registered tests, 0-6 cases, erroring cases, duplicate categories, shared exits, localized / expression arguments, all resume kinds and planted random draws; every step that left a node must have taken the exit of the category chosen by an independent reference router, and the stored result must carry that category's name, the match (operand for default) and the operand as input (modulo MaxResultChars). Held on the executions observed only.",
+         "Trusts: Evaluator.TemplateValue and the registered test functions inside the reference router; the clock is frozen per engine call so router and reference see the same instant.",
+         "DESIGN.md §4 C07"),
+ "C08": ("differential monitor: every case 8x in-process and across 3 passes of fresh processes (ascending, descending, one process per case), digests compared; process-global canaries",
+         "Runtime monitoring: scenarios biased to map-order-sensitive features plus pure calls (Inspect, MigrateToLatest, Clone with fixed mapping, ContactQuery.String, template results) are executed repeatedly from identical clock/UUID/random sources; any byte difference between repetitions in one process, between fresh processes (different map hash seeds) or depending on what ran before (order / process-global contamination) is a violation. Held on the executions observed only.",
+         "Trusts: Go's per-iteration map randomisation to expose order dependence (a 2-key site agrees 8 times with probability 2^-7; cases are many); SHA-256 digests.",
+         "DESIGN.md §4 C08"),
+ "C09": ("Go race detector over rounds of N goroutines on cold shared assets in many short-lived processes + concurrent-vs-solo transcript equality + canaries",
+         "Runtime monitoring / sanitizer: the checker is rebuilt with -race; each round builds fresh shared SessionAssets (flows stored at spec 13.0 so lazy migration runs on first use) and releases N in {2..32} goroutines from a barrier under GOMAXPROCS in {1,2,4,8,16}, each running a seeded script (start, marshal, read, resume, inspect, extract, change language, evaluate, query, modifiers) with per-goroutine lock-free clock/UUID sources that inject yields; oracles: zero race reports, every goroutine's transcript byte-equal to its solo run, process globals and shared assets unchanged. Held on the interleavings observed only.",
+         "Trusts: the race detector (happens-before; reports only races that occur in the observed executions); harness takes no lock between barrier and end of a script; rand()/random routers excluded (global lock in the random package).",
+         "DESIGN.md §4 C09"),
+ "C18": ("reference-model oracle: reference language chain vs msg_created / category_localized / router behaviour over the configuration grid",
+         "Runtime monitoring: the grid contact language x allowed-language lists x base language x translation state per (language, item, property) is executed (thorough: the complete grid of 177120 points, exhaustive for that sub-space) and text, attachments, quick replies, the language part of the locale, category_localized and routing with localized arguments must equal what the documented fallback chain prescribes. Held on the executions observed only.",
+         "Trusts: plain (expression-free) texts so expected values are exact; where the statement is silent (empty message, dropped attachments) behaviour is counted, not judged.",
+         "DESIGN.md §4 C18"),
+ "C19": ("differential monitor: twin sessions differing only in URN path/display under redaction; full context walk, generated templates and masked events compared; control under policy none",
+         "Runtime monitoring: for generated and directed scenarios twin sessions are run whose contacts/messages/parent summaries differ only in URN path and display; under policy urns the complete walk of every run's context (text, Format, JSON), 12-24 generated templates per run and the flows' own events (raw-URN hand-back fields masked) must be identical, unnamed contacts are shown by id and URN-valued ContactQL conditions are rejected; under policy none the same walk must differ. Held on the executions observed only.",
+         "Trusts: the event fields masked as raw-URN hand-back (msg.urn, contact_urns_changed.urns, ...) are not expression outputs; URN query groups are neutralised because assets load under a default environment.",
+         "DESIGN.md §4 C19"),
+ "C20": ("offline checker over the recorded sprint log against Flow.Inspect(): stored results, exits taken out of waits and fixed asset references of executed actions/templates",
+         "Runtime monitoring: for every run of every generated and directed execution, every stored result's key (and category when fixed) must be declared by the inspection, every exit through which a resume left a wait must be a waiting exit, and every fixed reference of an executed action and every global/field named by a template of a visited node (base language and the language used) must be a dependency, using an independent reference model of which properties hold references. Held on the executions observed only.",
+         "Trusts: the harness's own per-action table of reference-holding properties and template scanner; which templates ran is derived from visited nodes plus the definition (no hook).",
+         "DESIGN.md §4 C20"),
+})
+
 NOT_YET = {}
 
 def main():
